@@ -60,6 +60,13 @@ func c10Cases(e *Env) []txCase {
 		c.Files[1].Lead = true
 		out = append(out, c)
 	}
+	// ... and with a separator line behind the header that holds blanks / a tab
+	for _, sep := range []string{"  ", "\t"} {
+		for _, c := range []txCase{mk("none", "", "file", ""), mk("file", "", "none", "")} {
+			c.Files[1].Sep = sep
+			out = append(out, c)
+		}
+	}
 	// a first run that starts at a checkpoint file (the older file is skipped); a crash inside the checkpoint
 	// leaves it partially applied (none mode), the re-run resumes it and runs every later file
 	for _, mode := range []string{"none", "file"} {
